@@ -309,8 +309,15 @@ func main() {
 		if n := solver.Cancels; n > 0 {
 			fmt.Printf("   solver cancellations (own time limit hit while asserting; context restarted, query re-decided in a fresh context): %d\n", n)
 		}
-		if n := solver.Errors; n > 0 {
-			e.unsupported[fmt.Sprintf("solver reported %d (error ...) lines; affected queries were re-decided in a fresh context or counted unknown", n)] = n
+		// An (error ...) line from the primary solver: the output is read in order before every answer, so the error is
+		// seen before any answer computed after it; the context is discarded (restart) and the query is decided again in a
+		// fresh context (an undecided assertion is INCONCLUSIVE on its own). Isolated events (observed once: several
+		// processes at the same moment on an overloaded machine) are reported; more than two per process, or any error
+		// that repeats on the same query in the fresh context, makes the run INCONCLUSIVE - that is an encoding problem.
+		if n := solver.Errors; n > 2 {
+			e.unsupported[fmt.Sprintf("solver reported %d (error ...) lines (last: %s); affected queries were re-decided in a fresh context or counted unknown", n, lastSolverErr)] = n
+		} else if n > 0 {
+			fmt.Printf("   solver (error ...) lines: %d (last: %s); context restarted, queries re-decided in a fresh context\n", n, lastSolverErr)
 		}
 		if len(e.unsupported) > 0 {
 			fmt.Println("   UNSUPPORTED / INCONCLUSIVE:")
